@@ -18,11 +18,13 @@ def tasks(tier, seed):
         ts += [{"kind": "rnd", "count": 250, "seed": seed * 10 + i, "n": 3} for i in range(4)]
         ts += [{"kind": "eps_graph", "count": 120, "seed": seed * 10 + i, "n": 2} for i in range(3)]
         ts += [{"kind": "tree", "depths": [9, 10], "limits": [1000, 3000]} for _ in range(3)]
+        ts += [{"kind": "fan", "ks": [2, 3, 4, 5, 6, 8], "seed": seed}]
     else:
         ts += [{"kind": "small", "part": i, "parts": 32, "stride": 1, "n": 3} for i in range(32)]
         ts += [{"kind": "rnd", "count": 1500, "seed": seed * 10 + i, "n": 4} for i in range(16)]
         ts += [{"kind": "eps_graph", "count": 600, "seed": seed * 10 + i, "n": 3} for i in range(8)]
         ts += [{"kind": "tree", "depths": [8, 9, 10, 11], "limits": [500, 1000, 3000, 5000]} for _ in range(8)]
+        ts += [{"kind": "fan", "ks": list(range(2, 13)), "seed": seed * 10 + i} for i in range(4)]
     return gen.spread(ts, hs)
 
 
@@ -176,6 +178,18 @@ def drive(task):
         for d in task["depths"]:
             for lim in task["limits"]:
                 yield one_event(pdasrc.tree_pda(d), 1, lim, {"kind": "pda_tree", "depth": d})
+    elif task["kind"] == "fan":
+        for k in task["ks"]:
+            for tail in (2, 3):
+                for letter in (0, 1):
+                    for push in (0, 1):
+                        src = {"kind": "pda_fan", "k": k, "tail": tail, "letter": letter, "push": push, "seed": task["seed"] + k}
+                        P = pdasrc.build(src)
+                        need = closure_need(P, 1)
+                        if need is None:
+                            continue
+                        for lim in (need, need + 1, need + 2, 2 * need):
+                            yield one_event(P, 1, lim, src)
     elif task["kind"] == "eps_graph":
         for i in range(task["count"]):
             yield from events({"kind": "pda_eps_graph", "seed": task["seed"] * 100000 + i}, task["n"], rng)
